@@ -21,7 +21,7 @@ RULE = (
 )
 TIERS = {"quick": {"shards": 8, "n": 160, "budget_s": 220}, "thorough": {"shards": 16, "n": 2000, "budget_s": 2700}}
 FLOOR = {"quick": 60, "thorough": 4000}
-REQUIRED_LABELS = {"quick": ["in:class", "in:function", "in:argparse", "emit:class", "emit:function", "emit:argparse", "emit:pydantic", "emit:json_schema", "emit:sqlalchemy", "existing-output", "infer-imports", "prepend"], "thorough": []}
+REQUIRED_LABELS = {"quick": ["mixed-kinds-in-one-module", "in:class", "in:function", "in:argparse", "emit:class", "emit:function", "emit:argparse", "emit:pydantic", "emit:json_schema", "emit:sqlalchemy", "existing-output", "infer-imports", "prepend"], "thorough": []}
 ASSUMPTIONS = [
     "input symbols are produced by cdd's own emitters from generated interfaces of the common domain (round-trip clean by C02)",
     "SQLAlchemy-class and Table inputs are outside the generated domain (finding P37)",
@@ -40,13 +40,15 @@ def init_worker(ctx):
 def case_strategy(draw):
     n = draw(st.integers(1, 5))
     snames = draw(st.lists(gen_ir.names.map(lambda s: s.capitalize()), min_size=n, max_size=n, unique=True))
-    kind = draw(st.sampled_from(["class", "function", "argparse"]))
+    kind = draw(st.sampled_from(["class", "function", "argparse", "mixed"]))
     irs = [draw(gen_ir.interface("common", min_params=1, max_params=4, returns=False, min_literal=2)) for _ in snames]
+    kinds_in = [draw(st.sampled_from(["class", "function", "argparse"])) for _ in snames] if kind == "mixed" else [kind] * len(snames)
     return {
         "in": kind,
+        "kinds_in": kinds_in,
         "names": snames,
         "irs": irs,
-        "parse": draw(st.sampled_from(["explicit", "infer"])),
+        "parse": "infer" if kind == "mixed" else draw(st.sampled_from(["explicit", "infer"])),
         "emit": draw(st.sampled_from(EMITS)),
         "tpl": draw(st.sampled_from(TPLS)),
         "infer": draw(st.booleans()),
@@ -61,12 +63,12 @@ def strategy(ctx):
 
 def render_input(case):
     parts = ["from typing import *", ""]
-    for nm, ir_case in zip(case["names"], case["irs"]):
+    for nm, ir_case, k_in in zip(case["names"], case["irs"], case.get("kinds_in") or [case["in"]] * len(case["names"])):
         ir = gen_ir.to_ir(ir_case, name=nm)
         with core.quiet():
-            if case["in"] == "class":
+            if k_in == "class":
                 src, _ = hops.emit_src("class", ir, class_name=nm)
-            elif case["in"] == "function":
+            elif k_in == "function":
                 src, _ = hops.emit_src("function", ir, function_name=nm, function_type="static", emit_as_kwonlyargs=False)
             else:
                 src, _ = hops.emit_src("argparse", ir, function_name=nm)
@@ -123,6 +125,8 @@ def oracle(case):
         with open(ip, "w") as f:
             f.write(render_input(case))
         parse = {"class": "class", "function": "function", "argparse": "argparse"}[case["in"]] if case["parse"] == "explicit" else "infer"
+        if len(set(case.get("kinds_in") or [])) > 1:
+            r.label("mixed-kinds-in-one-module")
         argv = ["gen", "--name-tpl", tpl, "--input-mapping", ip, "--parse", parse, "--emit", emit, "-o", op]
         if case["infer"]:
             argv.append("--emit-and-infer-imports")
@@ -153,7 +157,7 @@ def oracle(case):
         except BaseException as e:
             if isinstance(e, (core.CaseTimeout, KeyboardInterrupt)):
                 raise
-            if case["in"] == "argparse" and emit in ("json_schema", "sqlalchemy", "sqlalchemy_hybrid", "sqlalchemy_table") and is_open("P38"):
+            if "argparse" in (case.get("kinds_in") or [case["in"]]) and emit in ("json_schema", "sqlalchemy", "sqlalchemy_hybrid", "sqlalchemy_table") and is_open("P38"):
                 r.covered("P38")  # argparse IR has no 'returns' key: these emitters index it
             else:
                 r.fail("gen-raises", "%s (in=%s parse=%s emit=%s tpl=%s infer=%s prepend=%s)" % (core.exc_bucket(e), case["in"], parse, emit, tpl, case["infer"], bool(case["prepend"])))
@@ -200,8 +204,9 @@ def oracle(case):
         nm = getattr(x, "name", None) or (x.targets[0].id if isinstance(x, ast.Assign) and isinstance(x.targets[0], ast.Name) else None)
         if nm:
             nodes[nm] = x
-    lossy = "argparse" in (case["in"], emit) or "function" in (case["in"], emit)
-    for nm, w, ir_case in zip(case["names"], want, case["irs"]):
+    kinds_in = case.get("kinds_in") or [case["in"]] * len(case["names"])
+    for nm, w, ir_case, k_in in zip(case["names"], want, case["irs"], kinds_in):
+        lossy = "argparse" in (k_in, emit) or "function" in (k_in, emit)
         node = nodes.get(w) or (nodes.get(nm) if sql else None)
         if node is None:
             continue  # reported by the naming clauses
